@@ -97,6 +97,7 @@ static int eval_case(const Fields &f, std::string *msg, std::string *klass) {
   Verdict v = HARNESS.check(f);
   if (v.kind == Verdict::DISCARD) { stats().discarded++; return 2; }
   stats().evaluations++;
+  if (f.has("long")) stats().hit("long_mode_cases");
   if (v.kind == Verdict::PASS) return 0;
   if (msg) *msg = v.msg;
   if (klass) *klass = v.klass;
